@@ -15,6 +15,12 @@ import (
 //   - ORDER BY (+LIMIT): right count, sub-multiset, emitted key sequence sorted, and the key multiset equals that of the
 //     first n rows of the sorted full result (ties may pick any row)
 func CompareResult(res model.Result, got []Row, csvMode bool) error {
+	return CompareResultSeq(res, got, csvMode, true)
+}
+
+// CompareResultSeq with sequence=false only demands that the multiset of ORDER BY keys is that of the first n sorted rows
+// (for an ordered+limited subquery whose parent imposes no order of its own).
+func CompareResultSeq(res model.Result, got []Row, csvMode bool, sequence bool) error {
 	full := map[string]int{}
 	for _, r := range res.Full {
 		full[ModelRowKey(r, csvMode)]++
@@ -63,6 +69,21 @@ func CompareResult(res model.Result, got []Row, csvMode bool) error {
 			parts[j] = r[res.Cols[ci]]
 		}
 		gotOrderKeys[i] = strings.Join(parts, " | ")
+	}
+	if !sequence {
+		wantBag, gotBag := map[string]int{}, map[string]int{}
+		for i := range sorted {
+			wantBag[keyOf(sorted[i])]++
+		}
+		for _, k := range gotOrderKeys {
+			gotBag[k]++
+		}
+		for k, n := range wantBag {
+			if gotBag[k] != n {
+				return fmt.Errorf("ORDER BY + LIMIT in a subquery: the output holds key (%s) %d times, the first %d rows of the sort order hold it %d times\n got keys: %s", k, gotBag[k], len(sorted), n, brief(gotOrderKeys))
+			}
+		}
+		return nil
 	}
 	// the sorted model rows give the expected key sequence (keys are totally ordered, so the key sequence is unique)
 	for i := range sorted {
